@@ -405,6 +405,19 @@ def digits_after_branches(rng, smi):
     return "".join(out) if changed else None
 
 
+def explicit_ring_closure_bond(rng, smi):
+    """respell: write an explicit '-' (or, on non-aromatic closures, the bond symbol) on exactly ONE of the two
+    digits of a ring closure, e.g. c1ccc2ccccc2c1 -> c1ccc-2ccccc2c1 (an explicit single bond inside an aromatic
+    system: it must stay single)"""
+    import re
+    toks = re.findall(r"\[[^\]]*\]|Br|Cl|%\d\d|\d|.", smi)
+    idx = [i for i, t in enumerate(toks) if re.fullmatch(r"%\d\d|\d", t) and i > 0 and toks[i - 1] not in "=#/\\-:"]
+    if not idx:
+        return None
+    i = rng.choice(idx)
+    return "".join(toks[:i] + ["-"] + toks[i:])
+
+
 def capacity_pairs(rng):
     """molecules that contain a legal atom and, elsewhere, a sibling of the same element / charge / bond count
     that differs only in explicit H (or in nothing) - in both orders, as one chain and as two fragments"""
